@@ -7,11 +7,16 @@ import (
 	"path"
 	"path/filepath"
 	"strings"
+	"sync"
 )
 
 type fileStorage struct {
 	dirPath string
 }
+
+// setMutex serializes the writes of all file storages. Two overlapping writes of
+// the same key would otherwise share the temporary file.
+var setMutex sync.Mutex
 
 // NewTempFileStorage returns a new storage inside temporary folder.
 func NewTempFileStorage() (Storage, error) {
@@ -42,6 +47,9 @@ func NewFileStorage(dir string) (Storage, error) {
 func (f *fileStorage) Set(key string, value []byte) error {
 	path := f.filePathToFile(key)
 	tmp := path + ".tmp"
+
+	setMutex.Lock()
+	defer setMutex.Unlock()
 
 	verifCrashPoint()
 	file, err := os.OpenFile(tmp, os.O_WRONLY|os.O_CREATE|os.O_TRUNC, 0666)
